@@ -128,7 +128,7 @@ impl Prop for C16 {
 
     fn gen(&self, seed: u64, run: u64, tier: Tier) -> Trace {
         let mut rng = Rng::new(mix(seed, "C16", run));
-        let deep = tier == Tier::Thorough && run % 4 == 3;
+        let deep = tier == Tier::Thorough && run % 16 == 15;
         let mut trng = Rng::new(mix(seed, "C16-tree", run / 64));
         let tree = gen_tree(&mut trng, true, 2, 2, 1);
         let controllers = *rng.pick(&[1u8, 1, 2, 3]);
